@@ -144,6 +144,9 @@ def gen_size(rng, config):
     r = rng.random()
     if r < 0.08:
         return rng.randint(1, 7)
+    if r < 0.2:
+        # lengths at and next to powers of two (FFT padding, interpolation factors and filter padding switch there)
+        return max(lo, min(hi, rng.choice([8, 16, 32, 64, 128, 256]) + rng.choice([-1, 0, 0, 1])))
     if r < 0.85:
         return rng.randint(max(lo, 8), min(hi, 128))
     return rng.randint(lo, hi)
